@@ -599,7 +599,7 @@ def second_assignment(assign, m):
     return [(i + 1) % m for i in assign]
 
 
-def run_assignment(cfg, oname, ospec, shape, assign, m, route="json"):
+def run_assignment(cfg, oname, ospec, shape, assign, m, route="json", ctor="same"):
     """Build a fresh graph, invoke the objective twice; returns (bad, values, maxdev)
     where bad is a list of (check, detail)."""
     import torch
@@ -614,8 +614,11 @@ def run_assignment(cfg, oname, ospec, shape, assign, m, route="json"):
         torch.default_generator.manual_seed(20140)
         state0 = torch.default_generator.get_state()
         try:
+            # ctor == "decoy": the objective is constructed with another sample shape and the shape
+            # under test is requested per call (samples=...), as the convergence monitors do
+            cshape = list(shape) if ctor == "same" else list(shape[:-1]) + [shape[-1] + 1]
             spec = cfg.spec + [dict(ospec, id="obj", joint="joint", variational=cfg.q_id,
-                                    samples=shape[0] if len(shape) == 1 else list(shape))]
+                                    samples=cshape[0] if len(cshape) == 1 else cshape)]
             dic = tt.load(spec) if route == "json" else build_api(spec)
         except Exception as e:
             return [("build_raises", f"{type(e).__name__}: {e}")], values, maxdev, False
@@ -655,7 +658,7 @@ def run_assignment(cfg, oname, ospec, shape, assign, m, route="json"):
                     # the optimisation loop: parameters require gradients, plain call
                     for pid in cfg.var_ids:
                         dic[pid].requires_grad = True
-                    v = obj()
+                    v = obj() if ctor == "same" else obj(samples=torch.Size(shape))
             except Exception as e:
                 bad.append(("raises", f"{where}: {type(e).__name__}: {str(e)[:200]}"))
                 break
@@ -838,6 +841,14 @@ def run_group(g):
                 first[check] = (list(assign), detail)
         if values and all(i < 2 for i in assign):
             cube.append(values[0])
+        if res["assignments"] <= 2 and not bad and g.get("route", "json") == "json":
+            # the same request on an objective constructed with a different sample shape
+            bad2, _, _, _ = run_assignment(cfg, g["oname"], g["ospec"], g["shape"], list(assign), m,
+                                           "json", ctor="decoy")
+            res["evals"] += 2
+            for check, detail in bad2:
+                if check + "@per_call_shape" not in first:
+                    first[check + "@per_call_shape"] = (list(assign), detail)
         if res["assignments"] == min(m ** n, 5):
             res["sample"] = {"pair": g["pair"], "qform": g["qform"], "hyper": g["hyper"],
                              "data": g["data"], "seed": g["seed"], "oname": g["oname"],
@@ -847,7 +858,8 @@ def run_group(g):
     for check, (assign, detail) in first.items():
         case = {k: g[k] for k in ("pair", "qform", "hyper", "data", "seed", "oname", "ospec",
                                   "shape", "tier")}
-        case.update(kind="assignment", assign=assign, menu=m, route=g.get("route", "json"))
+        case.update(kind="assignment", assign=assign, menu=m, route=g.get("route", "json"),
+                    ctor="decoy" if check.endswith("@per_call_shape") else "same")
         res["viol"].append({"case": case, "sig": sig_of(g, check),
                             "detail": f"{g['pair']}/{g['qform']} [{g.get('route', 'json')}] {g['oname']} "
                                       f"{g['ospec']} samples={g['shape']} draws#{assign}: {check}: {detail}"})
@@ -995,7 +1007,9 @@ def replay(case):
     if len(assign) != n:
         assign = (assign * n)[:n]
     bad, values, maxdev, _ = run_assignment(cfg, g["oname"], g["ospec"], g["shape"], assign, m,
-                                            g.get("route", "json"))
+                                            g.get("route", "json"), ctor=case.get("ctor", "same"))
+    if case.get("ctor") == "decoy":
+        bad = [(c + "@per_call_shape", d) for c, d in bad]
     seen = set()
     for check, detail in bad:
         if check in seen:
